@@ -56,7 +56,11 @@ func specMode(m cpu.BitMode) int { return int(m) }
 // specPow2A: n is a power of two 2^k with 0 <= k < 8 (written out so that the
 // solver splits on the constant divisor; codegen rejects units that are not powers of two).
 func specPow2A(n int32) bool {
-	return n == 1<<0 || n == 1<<1 || n == 1<<2 || n == 1<<3 || n == 1<<4 || n == 1<<5 || n == 1<<6 || n == 1<<7
+	return n == 1<<0 || n == 1<<1 || n == 1<<2 || n == 1<<3
+}
+
+func specPow2E(n int32) bool {
+	return n == 1<<4 || n == 1<<5 || n == 1<<6 || n == 1<<7
 }
 
 // specPow2B: n is a power of two 2^k with 8 <= k < 16 (written out so that the
@@ -81,6 +85,7 @@ func specPow2D(n int32) bool {
 //@ props C05 C03
 //@ requires env != nil && env.Client != nil && env.LOC >= 0
 //@ ensures[pad.a] len(operands) == 1 && specIsNumber(operands[0]) && specPow2A(int32(specNumber(operands[0]))) && int64(old(env.LOC))+int64(int32(specNumber(operands[0]))) <= 0x7fffffff ==> env.LOC >= old(env.LOC) && env.LOC-old(env.LOC) < int32(specNumber(operands[0])) && env.LOC%int32(specNumber(operands[0])) == 0
+//@ ensures[pad.e] len(operands) == 1 && specIsNumber(operands[0]) && specPow2E(int32(specNumber(operands[0]))) && int64(old(env.LOC))+int64(int32(specNumber(operands[0]))) <= 0x7fffffff ==> env.LOC >= old(env.LOC) && env.LOC-old(env.LOC) < int32(specNumber(operands[0])) && env.LOC%int32(specNumber(operands[0])) == 0
 //@ ensures[pad.b] len(operands) == 1 && specIsNumber(operands[0]) && specPow2B(int32(specNumber(operands[0]))) && int64(old(env.LOC))+int64(int32(specNumber(operands[0]))) <= 0x7fffffff ==> env.LOC >= old(env.LOC) && env.LOC-old(env.LOC) < int32(specNumber(operands[0])) && env.LOC%int32(specNumber(operands[0])) == 0
 //@ ensures[pad.c] len(operands) == 1 && specIsNumber(operands[0]) && specPow2C(int32(specNumber(operands[0]))) && int64(old(env.LOC))+int64(int32(specNumber(operands[0]))) <= 0x7fffffff ==> env.LOC >= old(env.LOC) && env.LOC-old(env.LOC) < int32(specNumber(operands[0])) && env.LOC%int32(specNumber(operands[0])) == 0
 //@ ensures[pad.d] len(operands) == 1 && specIsNumber(operands[0]) && specPow2D(int32(specNumber(operands[0]))) && int64(old(env.LOC))+int64(int32(specNumber(operands[0]))) <= 0x7fffffff ==> env.LOC >= old(env.LOC) && env.LOC-old(env.LOC) < int32(specNumber(operands[0])) && env.LOC%int32(specNumber(operands[0])) == 0
